@@ -153,8 +153,11 @@ func (c *ClusterNodes) updateClusterNodes(msg string) error {
 	}
 
 	if c.isChanged(allNodes) {
+		verifTopoPoint("r-clr")
 		c.setServer(allNodes)
+		verifTopoPoint("r-reps0")
 		c.setReplicaset(allNodes)
+		verifTopoPoint("r-flag")
 		c.serverChanged = true
 	}
 
@@ -192,6 +195,7 @@ func (c *ClusterNodes) setServer(allNodes []*ClusterNode) {
 	for kv := range c.ServerMap.Iter() {
 		c.ServerMap.Del(kv.Key)
 	}
+	verifTopoPoint("r-fill")
 	for _, m := range allNodes {
 		c.ServerMap.Insert(m.Addr, m)
 	}
@@ -204,6 +208,7 @@ func (c *ClusterNodes) setReplicaset(allNodes []*ClusterNode) {
 		c.Replicasets = make([]*replicaset, 0)
 	}
 	c.Replicasets = c.Replicasets[:0]
+	verifTopoPoint("r-reps")
 
 	for _, n := range allNodes {
 		if n.Role == Master {
